@@ -97,7 +97,11 @@ PassManager / nested Sequential of an honest functional pass that returns a new 
 by an in-place pass; in-place then functional) and also requires the result not to share the input's graph
 -> caught (O).  r3m3 (specs of values without a map entry dropped instead of kept) was MISSED because sharded
 CAPTURED inputs were too rare: nodes of nested graphs now shard a captured input with probability 0.6 when a
-device configuration exists (corpus sharded_capture) -> caught (C,O).  Applying the proposed fix makes the
+device configuration exists (corpus sharded_capture) -> caught (C,O).
+Round 4: r4m3 (remap result discarded when the node's LAST device configuration needed no remapping) was MISSED
+because every generated node had at most one device configuration; nodes now get 1..3 configurations under
+different model configurations in random order (value-bound own/captured specs, placement-only, value=None spec,
+foreign-value spec; corpus multi_device_configs) -> caught (C,O).  Applying the proposed fix makes the
 correspondence break and the known finding stale, as it must.
 """
 
@@ -472,36 +476,36 @@ class Gen:
                 self.set_output_props(o)
             self.decorate(n)
             captured = [v for v in n.inputs if v is not None and any(v is w for w in outer)]
-            if self.cfgs and captured and rng.random() < 0.6:
-                # shard an input CAPTURED from an enclosing graph (its spec has no entry in the value map when the
-                # subgraph / view is cloned with allow_outer_scope_values=True and must be kept as it is)
-                v = rng.choice(captured)
-                if v.shape is None or len(v.shape) == 0:
-                    v.shape = ir.Shape([4, "N"])
-                try:
-                    n.shard(v, configuration=rng.choice(self.cfgs), axis=0, num_shards=2, device_indices=(0, 1))
-                except ValueError:
-                    pass
-            elif self.cfgs and rng.random() < 0.35:
-                cands = [v for v in list(n.inputs) + list(n.outputs) if v is not None]
-                cfg = rng.choice(self.cfgs)
-                if cands and rng.random() < 0.8:
-                    v = rng.choice(cands)
-                    try:
-                        n.shard(v, configuration=cfg, axis=0, num_shards=2, device_indices=(0, 1),
-                                pipeline_stage=rng.choice([None, 1]))
-                    except ValueError:
-                        n.set_pipeline_stage(cfg, 0)
-                else:
-                    n.set_pipeline_stage(cfg, rng.randrange(3))
-            elif self.cfgs and rng.random() < 0.12:
-                # a raw configuration whose spec is about a value that need not be an input/output of the node
-                # (outside C19's invariant: exercises the "kept as-is" path of _remap_device_configurations)
-                pool2 = avail + outer
-                spec_v = rng.choice(pool2) if pool2 and rng.random() < 0.8 else None
-                n.device_configurations = (ir.NodeDeviceConfiguration(
-                    configuration=rng.choice(self.cfgs),
-                    sharding_specs=(ir.ShardingSpec(value=spec_v, device=(0,)),), pipeline_stage=None),)
+            if self.cfgs and (rng.random() < 0.45 or (captured and rng.random() < 0.6)):
+                # 1..3 device configurations on the node, each under a DIFFERENT model configuration and in random
+                # order: value-bound specs (own / captured values), placement-only, value=None spec, and a spec about a
+                # value that need not be an input/output of the node (outside C19's invariant: "kept as-is" path)
+                own = [v for v in list(n.inputs) + list(n.outputs) if v is not None]
+                cfgs = list(self.cfgs)
+                rng.shuffle(cfgs)
+                for cfg in cfgs[: rng.choice([1, 1, 2, 2, 3])]:
+                    act = rng.choice(["own", "own", "captured", "stage", "stage", "none", "foreign"])
+                    if act == "captured" and not captured:
+                        act = "own"
+                    if act == "own" and not own:
+                        act = "stage"
+                    if act in ("own", "captured"):
+                        v = rng.choice(captured if act == "captured" else own)
+                        if act == "captured" and (v.shape is None or len(v.shape) == 0):
+                            v.shape = ir.Shape([4, "N"])
+                        try:
+                            n.shard(v, configuration=cfg, axis=0, num_shards=2, device_indices=(0, 1),
+                                    pipeline_stage=rng.choice([None, None, 1]))
+                        except ValueError:
+                            n.set_pipeline_stage(cfg, 0)
+                    elif act == "stage":
+                        n.set_pipeline_stage(cfg, rng.randrange(3))
+                    else:
+                        pool2 = avail + outer
+                        spec_v = rng.choice(pool2) if (act == "foreign" and pool2) else None
+                        n.device_configurations = (*n.device_configurations, ir.NodeDeviceConfiguration(
+                            configuration=cfg, sharding_specs=(ir.ShardingSpec(value=spec_v, device=(0,)),),
+                            pipeline_stage=None))
             nodes.append(n)
             avail += list(n.outputs)
         # (a value already registered as output of a nested graph cannot be listed again: Graph() refuses)
@@ -545,8 +549,10 @@ class Gen:
                          producer_name=rng.choice([None, "verif"]), doc_string=rng.choice([None, "mdoc"]))
         if use_dev:
             self.cfgs.append(model.add_device_configuration("c0", device_names=("d0", "d1")))
-            if rng.random() < 0.3:
+            if rng.random() < 0.75:
                 self.cfgs.append(model.add_device_configuration("c1", num_devices=2))
+            if rng.random() < 0.4:
+                self.cfgs.append(model.add_device_configuration("c2", device_names=("e0", "e1", "e2")))
         model.graph = self.mk_graph(0, [])
         for _ in range(rng.choice([0, 0, 1, 2])):
             f = self.mk_function()
@@ -1180,6 +1186,20 @@ def builtin_scenario(name: str):
         model.graph = ir.Graph([x, c], n.outputs, nodes=[n], name="g", opset_imports={"": 20})
         return {"model": model, "gen": gen, "target": sub, "univ": [model], "kind": 0, "allow": True, "deep": False,
                 "clone": lambda: sub.clone(allow_outer_scope_values=True)}
+    elif name == "multi_device_configs":
+        # seeded change C13-r4m3: value-bound specs under the first configuration, placement-only under the last
+        model = ir.Model(ir.Graph([], [], nodes=[], name="placeholder"), ir_version=11)
+        tp = model.add_device_configuration("tp", device_names=("d0", "d1"))
+        pp = model.add_device_configuration("pp", num_devices=2)
+        x = ir.Value(name="x", type=ir.TensorType(F), shape=ir.Shape([4, 2]))
+        n = ir.Node("", "Relu", [x], name="relu")
+        n.outputs[0].name, n.outputs[0].shape, n.outputs[0].type = "y", ir.Shape([4, 2]), ir.TensorType(F)
+        n.shard(x, configuration=tp, axis=0, num_shards=2, device_indices=(0, 1))
+        n.shard(n.outputs[0], configuration=tp, axis=0, num_shards=2, device_indices=(0, 1))
+        n.set_pipeline_stage(pp, 1)
+        model.graph = ir.Graph([x], n.outputs, nodes=[n], name="g", opset_imports={"": 20})
+        return {"model": model, "gen": gen, "target": model, "univ": [model], "kind": 3, "allow": False, "deep": False,
+                "clone": lambda: model.clone()}
     elif name == "subgraph_capture_rejected":
         sc = builtin_scenario("subgraph_capture")
         sub = sc["target"]
